@@ -237,6 +237,20 @@ func (ex *Exec) isObserverPkg(fn *types.Func) bool {
 }
 
 func (ex *Exec) callFunc(p *Path, fn *types.Func, recv *Value, args []Value, call *ast.CallExpr) []Value {
+	pos := token.NoPos
+	if call != nil {
+		pos = call.Pos()
+	}
+	if evName, isEvent := ex.eventName(fn, call); isEvent {
+		ex.atCallObligations(p, evName, args, pos)
+		res := ex.callFuncInner(p, fn, recv, args, call)
+		ex.recordEvent(p, evName, args, res, pos)
+		return res
+	}
+	return ex.callFuncInner(p, fn, recv, args, call)
+}
+
+func (ex *Exec) callFuncInner(p *Path, fn *types.Func, recv *Value, args []Value, call *ast.CallExpr) []Value {
 	full := fn.FullName()
 	if fn.Origin() != nil {
 		full = fn.Origin().FullName()
@@ -273,6 +287,21 @@ func (ex *Exec) callFunc(p *Path, fn *types.Func, recv *Value, args []Value, cal
 		return ex.havocCall(p, fn, true)
 	}
 	sig := fn.Type().(*types.Signature)
+	if pure, known := ex.isPureLibrary(full); known {
+		if pure {
+			return ex.observerCall(p, fn, full, recv, args, sig)
+		}
+		// effectful library call: results unknown, modelled heap untouched (effects are on library objects)
+		ex.havocked[full] = true
+		var out []Value
+		for i := 0; i < sig.Results().Len(); i++ {
+			rt := sig.Results().At(i).Type()
+			v := Value{ex.c.Fresh("lib:"+fn.Name(), ex.c.SortOf(rt)), rt}
+			p.Assume(ex.c.typeInvariant(v))
+			out = append(out, v)
+		}
+		return out
+	}
 	if ex.isObserverPkg(fn) || ex.isGeneratedGetter(fn) {
 		return ex.observerCall(p, fn, full, recv, args, sig)
 	}
@@ -639,19 +668,21 @@ func (ex *Exec) callValue(p *Path, fv Value, args []Value, call *ast.CallExpr) [
 	// unknown function value: an event plus havocked results
 	name := "FUNCVAL"
 	if id, ok := unparen(call.Fun).(*ast.Ident); ok {
-		name = "CALLFV:" + id.Name
+		name = id.Name
 	} else if sel, ok := unparen(call.Fun).(*ast.SelectorExpr); ok {
-		name = "CALLFV:" + sel.Sel.Name
+		name = sel.Sel.Name
 	}
 	if ex.traceEvents {
-		ev := Event{Name: name, Pos: call.Pos()}
-		for _, a := range args {
-			ev.Args = append(ev.Args, a.T)
-		}
-		p.events = append(p.events, ev)
+		ex.atCallObligations(p, name, args, call.Pos())
 	}
 	ex.havocMutableHeap(p)
+	defer func() {}()
 	var out []Value
+	defer func() {
+		if ex.traceEvents {
+			ex.recordEvent(p, name, args, out, call.Pos())
+		}
+	}()
 	for i := 0; i < sig.Results().Len(); i++ {
 		rt := sig.Results().At(i).Type()
 		v := Value{ex.c.Fresh("fv:"+name, ex.c.SortOf(rt)), rt}
